@@ -1,5 +1,5 @@
 (** C07 — Position tokens: supply = sum; split/merge create no value; owner totals exact. *)
-From MX Require Import Base.Prelude Gen.Params Model.Farm Proofs.FarmInv Proofs.FarmSolv.
+From MX Require Import Base.Prelude Gen.Params Model.Farm Proofs.FarmInv Proofs.FarmSolv Proofs.FarmOwner.
 
 (** farm-token supply = sum of all outstanding position amounts = sum of what accounts hold,
     in every reachable state *)
@@ -50,6 +50,20 @@ Theorem C07_split_no_gain : forall a x y p q, 0 < x -> 0 < y -> x + y = a_amt a 
   a_amt p + a_amt q = a_amt a /\ a_comp p + a_comp q <= a_comp a.
 Proof. exact split_no_gain. Qed.
 Print Assumptions C07_split_no_gain.
+
+(** each user's tracked total farm position equals the sum of the outstanding amounts of the
+    positions whose recorded owner is that user — in every reachable state, also after positions
+    were transferred and then used (claim / exit / merge / enter-with-merge / compound) by another
+    account; in particular the saturating subtraction of decrease_user_farm_position never hides a
+    deficit *)
+Theorem C07_owner_totals : forall dsc same ops u, 0 < dsc -> Forall valid_op ops ->
+  let f := frun (init_farm dsc same) ops in
+  utot f u = wsum (fun n => if owner_of f n =? u then 1 else 0) (f_out f).
+Proof.
+  intros dsc same ops u Hd V f.
+  exact (frun_ut ops (init_farm dsc same) (init_farm_ok dsc same Hd) (init_ut dsc same) V u).
+Qed.
+Print Assumptions C07_owner_totals.
 
 Example C07_nonvacuous :
   match merge_with (mkAttrs 10 1 5 3 1) (mkAttrs 11 2 0 4 2) with
